@@ -347,6 +347,44 @@ func probeReconfigured() string {
 			}
 		}
 	}
+	// symbols registered by the caller: three-character symbols whose two-character prefix is not a symbol of its own; texts
+	// that end inside such a symbol, or continue differently, come back as their single characters - nothing is lost
+	type adder interface{ Add(string, int) }
+	for _, mk := range []func() tokenizers.ITokenizer{
+		func() tokenizers.ITokenizer { return generic.NewGenericTokenizer() },
+		func() tokenizers.ITokenizer { return ctok.NewExpressionTokenizer() },
+	} {
+		for _, sym := range []string{"=:=", "===", "<->", "|->>"} {
+			for _, text := range []string{"a " + sym, "a " + sym[:2], sym[:2], "a" + sym[:2] + " ", sym[:len(sym)-1], sym + sym[:2], "(" + sym[:2] + ")", sym[:1], "x " + sym[:2] + "y"} {
+				t := mk()
+				var st any
+				switch tt := t.(type) {
+				case *generic.GenericTokenizer:
+					st = tt.SymbolState()
+				case *ctok.ExpressionTokenizer:
+					st = tt.SymbolState()
+				}
+				a, ok := st.(adder)
+				if !ok {
+					continue
+				}
+				a.Add(sym, tokenizers.Symbol)
+				var sb strings.Builder
+				toks := t.TokenizeBuffer(text)
+				for _, k := range toks {
+					sb.WriteString(k.Value())
+				}
+				if sb.String() != text {
+					return fmt.Sprintf("with the symbol %q registered, %q comes back as %s (the token values do not spell the text)", sym, text, show(toks))
+				}
+				for _, k := range toks {
+					if k.Type() == tokenizers.Symbol && len([]rune(k.Value())) > 1 && k.Value() != sym && !strings.Contains("<= >= <> != << >> == ", k.Value()+" ") {
+						return fmt.Sprintf("with the symbol %q registered, %q contains the symbol token %q, which was never registered", sym, text, k.Value())
+					}
+				}
+			}
+		}
+	}
 	return ""
 }
 
